@@ -1,2 +1,81 @@
-(* C04 - stage 1: theorems about the ideal object (placeholder, filled below). *)
-From LV Require Import Cont.ContSpec.
+(* C04 - every vector implementation is the same sorted multiset.
+   STAGE 1: theorems about the ideal object (Cont/ContSpec.v: vec_step over an ascending list of
+   elements), proved for ALL histories.  The correspondence check ties the three real classes to
+   this object.  Stage 2 adds, per class, the refinement theorem (pointer-level model = this
+   spec up to the choice among equal elements, see C04_results_depend_on_keys_only).
+   This file holds only statements, each closed by `exact`, and Print Assumptions. *)
+From LV Require Import Cont.ContSpec Cont.ContKey Cont.VecProofs.
+From Coq Require Import Sorting.Sorted Sorting.Permutation.
+Local Open Scope Z_scope.
+
+(* ascending after every history, hence after every prefix of every history *)
+Theorem C04_sorted_after_every_history : forall ops, StronglySorted ele (final vec_step [] ops).
+Proof. exact vec_sorted_all. Qed.
+Print Assumptions C04_sorted_after_every_history.
+
+Theorem C04_sorted_after_every_prefix : forall ops n, StronglySorted ele (final vec_step [] (firstn n ops)).
+Proof. exact vec_sorted_prefix. Qed.
+Print Assumptions C04_sorted_after_every_prefix.
+
+(* contents: stored elements plus elements handed back by remove = inserted elements (as multisets,
+   with identities) *)
+Theorem C04_contents_inserted_minus_removed : forall ops,
+  Permutation (final vec_step [] ops ++ v_handed [] ops) (v_inserted ops).
+Proof. exact vec_contents. Qed.
+Print Assumptions C04_contents_inserted_minus_removed.
+
+Theorem C04_no_object_stored_twice : forall ops, NoDup (map eid (v_inserted ops)) ->
+  NoDup (map eid (final vec_step [] ops)).
+Proof. exact vec_nodup. Qed.
+Print Assumptions C04_no_object_stored_twice.
+
+(* find returns a stored element equal to the probe iff one is present *)
+Theorem C04_find_iff_present : forall xs p,
+  (exists x, In x xs /\ ekey x = p) <-> (exists x, v_find xs p = Some x /\ In x xs /\ ekey x = p).
+Proof. exact v_find_iff. Qed.
+Print Assumptions C04_find_iff_present.
+
+Theorem C04_find_none_iff_absent : forall xs p, v_find xs p = None <-> (forall x, In x xs -> ekey x <> p).
+Proof. exact v_find_none. Qed.
+Print Assumptions C04_find_none_iff_absent.
+
+(* remove takes out exactly one element with the probe's key, or nothing when none is present *)
+Theorem C04_remove_exactly_one : forall p xs xs' r, v_rem p xs = (xs', r) ->
+  (exists x l1 l2, r = Some x /\ ekey x = p /\ xs = l1 ++ x :: l2 /\ xs' = l1 ++ l2 /\
+                   forall y, In y l1 -> ekey y <> p)
+  \/ (r = None /\ xs' = xs /\ forall y, In y xs -> ekey y <> p).
+Proof. exact v_rem_spec. Qed.
+Print Assumptions C04_remove_exactly_one.
+
+(* iteration and to_array show exactly the state *)
+Theorem C04_iterate_and_to_array : forall s,
+  snd (vec_step s VIterate) = OElems (map Some s) /\ snd (vec_step s VToArray) = OElems (map Some s).
+Proof. exact vec_iterate_exact. Qed.
+Print Assumptions C04_iterate_and_to_array.
+
+(* Elements that compare equal have the same key text; hence two runs that start from states with
+   the same key sequence and receive the same operations up to element identity - in particular
+   runs of classes that place or pick equal elements differently - agree on every key-level
+   result and stay key-equal. *)
+Theorem C04_results_depend_on_keys_only : forall ops1 ops2 s1 s2,
+  map ekey s1 = map ekey s2 -> map vop_key ops1 = map vop_key ops2 ->
+  map ekey (final vec_step s1 ops1) = map ekey (final vec_step s2 ops2) /\
+  map out_key (outs vec_step s1 ops1) = map out_key (outs vec_step s2 ops2).
+Proof. exact vec_run_keys. Qed.
+Print Assumptions C04_results_depend_on_keys_only.
+
+Theorem C04_equal_by_comparison_is_equal_text : forall a b, key_cmp a b = Eq <-> a = b.
+Proof. exact key_cmp_eq_iff. Qed.
+Print Assumptions C04_equal_by_comparison_is_equal_text.
+
+(* non-vacuity *)
+Definition ka : key := [97]. Definition kb : key := [98]. Definition kc : key := [99].
+Example C04_ex_run :
+  vec_run [] [VInsert (mkElem 0 kb); VInsert (mkElem 1 ka); VInsert (mkElem 2 kb); VFind (mkElem 3 kb);
+              VRemove (mkElem 4 kb); VRemove (mkElem 5 kc); VToArray] =
+  ([mkElem 1 ka; mkElem 0 kb],
+   [OBool true; OBool true; OBool true; OElem (Some (mkElem 2 kb)); OElem (Some (mkElem 2 kb)); OElem None;
+    OElems [Some (mkElem 1 ka); Some (mkElem 0 kb)]]).
+Proof. vm_compute. reflexivity. Qed.
+Example C04_ex_keys : key_cmp [97; 98] [97] = Gt /\ key_cmp [97] [97; 98] = Lt /\ key_cmp [200] [97] = Gt.
+Proof. vm_compute. auto. Qed.
